@@ -194,6 +194,45 @@ def strip(s):
     return norm(SymStr(pieces))
 
 
+def strip_chars(s, chars, left=True, right=True):
+    """str.strip / lstrip / rstrip with an explicit character set.  Numeric fields and signs contain digits, '.', '-' only; an arbitrary
+    one-line text piece contains no line terminator, so it stops the stripping of line terminators (for any other character set an
+    arbitrary text piece at the end being stripped is not modelled)."""
+    s = as_symstr(s)
+    pieces = list(s.pieces)
+    eol_only = all(ch in '\r\n' for ch in chars)
+
+    def stops(p):
+        if isinstance(p, Txt):
+            if eol_only:
+                return True
+            raise EngineError('strip(%r) of an arbitrary text piece' % chars)
+        if any(ch in '0123456789.-' for ch in chars):
+            raise EngineError('strip(%r) next to a numeric field' % chars)
+        return True
+    if left:
+        while pieces:
+            if isinstance(pieces[0], str):
+                q = pieces[0].lstrip(chars)
+                if q:
+                    pieces[0] = q
+                    break
+                pieces.pop(0)
+            elif stops(pieces[0]):
+                break
+    if right:
+        while pieces:
+            if isinstance(pieces[-1], str):
+                q = pieces[-1].rstrip(chars)
+                if q:
+                    pieces[-1] = q
+                    break
+                pieces.pop()
+            elif stops(pieces[-1]):
+                break
+    return norm(SymStr(pieces)) if pieces else ''
+
+
 def sanitise_name(s):
     """numpy.lib._iotools.NameValidator (default): strip, spaces -> '_', delete punctuation"""
     s = as_symstr(s)
